@@ -301,3 +301,31 @@ func genGbFields(repo string) (string, error) {
 		})
 	})
 }
+
+// ---- GenBank.String --------------------------------------------------------------------------------------------------
+
+func genBankModule(repo string) *wmod {
+	m := newWmod(wLoadWorld(repo))
+	m.importFrom(insdcModule(repo))
+	m.importFrom(gbFieldsModule(repo))
+	p := m.w.pkgs["seqio"]
+	m.callee(p, "GenBankExtraField")
+	m.callee(p, "GenBank.String")
+	return m
+}
+
+func genGenBankWrite(repo string) (string, error) {
+	return wRun(func() string {
+		m := genBankModule(repo)
+		return m.render(wmodText{
+			header: "  GENERATED by go2lean (gwriter_fasta.go) from seqio/genbank.go — do not edit.\n" +
+				"  `GenBank.String` statement by statement: the LOCUS line, the field blocks in their order with their\n" +
+				"  guards and format strings, the feature table through the regenerated `INSDCFormatter.String`\n" +
+				"  (Gts/Gen/InsdcWrite.lean), CONTIG, ORIGIN, `//` — over the Go structs (Gts/Gen/GbFields.lean).  How the Go is\n" +
+				"  read: the header comments of go2lean/gwriter.go, gwriter_world.go and Gts/Gen/GoStrings.lean.\n",
+			imports: []string{"Gts.Gen.InsdcWrite", "Gts.Gen.GbFields"},
+			opens:   []string{"Gts.Gen.InsdcWrite", "Gts.Gen.GbFields"},
+			ns:      "Gts.Gen.GenBankWrite",
+		})
+	})
+}
